@@ -2873,3 +2873,78 @@ def m_readcount( ctx ):
     else:
         res.ok( src, rets[-1], '_read hands on exactly the values it asked for ( %d cells )' % res.cells )
     return res
+
+
+@rule( 'T-TNETPAYLOAD', props=( 'C20', ), floor=1 )
+def t_tnetpayload( ctx ):
+    """tnetstrings.parse_payload splits SIZE ':' PAYLOAD TYPE REST for every well-formed input, the shortest ones included ( b'0:~' is a whole
+    tnetstring: null, the empty string, list and dictionary are three octets long ) - by value on nine inputs."""
+    res = Result( 'T-TNETPAYLOAD' )
+    src = ctx.src( TNETS )
+    fn = src.get( 'parse_payload' )
+    D = fn.args.args[0].arg
+    wrong = []
+    for data, want in (( b'0:~', ( b'', b'~', b'' )), ( b'0:,', ( b'', b',', b'' )), ( b'0:]', ( b'', b']', b'' )), ( b'0:}', ( b'', b'}', b'' )), ( b'1:a,', ( b'a', b',', b'' )),
+                       ( b'0:~1:a,', ( b'', b'~', b'1:a,' )), ( b'4:1:a,]x', ( b'1:a,', b']', b'x' )), ( b'', 'raise' ), ( b'3:ab', 'raise' )):
+        env = { D: data, 'type': type, 'bytes': bytes, 'int': int, 'len': len }
+        try:
+            out = run_block( fn.body, env )
+        except Raises:
+            got = 'raise'
+        except NoFold as exc:
+            raise AnalysisError( 'tnetstrings.parse_payload: not a decision fragment: %s' % exc )
+        else:
+            got = tuple( out.value ) if out.kind == 'return' and isinstance( out.value, ( tuple, list )) else out.kind
+        res.cells += 1
+        if got != want:
+            wrong.append(( data, got, want ))
+    if wrong:
+        res.bad( src, fn, 'tnetstrings.parse_payload( %r ) -> %r, specified %r ( %d of %d inputs differ )' % ( wrong[0] + ( len( wrong ), res.cells )),
+                 'a whole tnetstring is refused ( or a broken one split ): parse( dump( None )), parse( dump( b"" )), parse( dump( [] )) raise - and so does every list or dictionary whose last element is null or empty' )
+    else:
+        res.ok( src, fn, 'parse_payload splits size, payload, type and rest for the shortest and for nested inputs, and refuses empty and cut ones ( %d inputs )' % res.cells )
+    return res
+
+
+@rule( 'M-POLLLIMIT', props=( 'C19', ), floor=1 )
+def m_polllimit( ctx ):
+    """poller_modbus._poller merges what it polls under limits that fit EVERY bank an address can belong to: a merge call is either left to merge's
+    per-bank defaults, or the explicit limit it passes is within the read limit ( 2000 bits / 125 registers ) of every address its filter lets
+    through - decided by value: the filter of each call is evaluated on a sample address of all seven banks."""
+    res = Result( 'M-POLLLIMIT' )
+    src = ctx.src( MODBUS )
+    fn = src.get( 'poller_modbus._poller' )
+    banks = (( 1, 2000 ), ( 9999, 2000 ), ( 10001, 2000 ), ( 19999, 2000 ), ( 30001, 125 ), ( 39999, 125 ), ( 40001, 125 ), ( 99999, 125 ), ( 100001, 2000 ), ( 165536, 2000 ),
+              ( 300001, 125 ), ( 319999, 125 ), ( 365536, 125 ), ( 400001, 125 ), ( 419999, 125 ), ( 465536, 125 ))
+    calls = [ c for c in ast.walk( fn ) if is_call_to( c, 'merge' ) ]
+    if not calls:
+        raise AnalysisError( 'poller_modbus._poller: no merge( ... ) call' )
+    local = { t.id: a.value for a in ast.walk( fn ) if isinstance( a, ast.Assign ) for t in a.targets if isinstance( t, ast.Name ) }
+    for c in calls:
+        kw = { k.arg: k.value for k in c.keywords if k.arg }
+        lim = try_fold( kw['limit'], { 'self.limit': None }, default='?' ) if 'limit' in kw else None
+        if lim is None:
+            res.ok( src, c, 'merge is left to its per-bank default limits' ); continue
+        if lim == '?':
+            raise AnalysisError( 'poller_modbus._poller: the limit handed to merge is outside the modelled subset: %s' % norm_text( kw['limit'] ))
+        over = []
+        for addr, cap in banks:
+            env = { 'self._data': { addr: None }, 'list': list, 'sorted': sorted, 'set': set }
+            for n_, v_ in local.items():
+                if n_ in names_in( c.args[0] ) if c.args else False:
+                    x_ = try_fold( v_, env, default='?' )
+                    if x_ != '?':
+                        env[n_] = x_
+            try:
+                passed = list( fold( c.args[0], env ))
+            except NoFold as exc:
+                raise AnalysisError( 'poller_modbus._poller: what is handed to merge is outside the modelled subset: %s' % exc )
+            res.cells += 1
+            if passed and lim > cap:
+                over.append(( addr, cap ))
+        if over:
+            res.bad( src, c, 'poller_modbus._poller merges address %d under limit %r ( its bank reads at most %d at once )' % ( over[0][0], lim, over[0][1] ),
+                     'the merged range is longer than one read of that bank may be: the PLC refuses the request and the registers of that range are never polled ( %d of %d sample addresses )' % ( len( over ), len( banks )))
+        else:
+            res.ok( src, c, 'merge( ..., limit=%r ) only ever sees addresses whose bank reads that many at once' % lim )
+    return res
